@@ -355,4 +355,31 @@ theorem caseless_ascii (c : Char) (h1 : ¬ (65 ≤ c.toNat ∧ c.toNat ≤ 90)) 
   · omega
   · omega
 
+/-! ## the generated base-type regexes (all but BOOL) are closed under case change, for the ASCII tables -/
+open Gen.Regexes in
+section
+macro "fold_inv_ascii" : tactic => `(tactic|
+  (repeat' constructor) <;>
+    first
+      | exact foldWordAll_ascii
+      | exact caseless_ascii _ (by decide) (by decide)
+      | exact foldInvP_ascii (by decide +kernel)
+      | trivial)
+
+theorem foldInvR_INT_ascii : FoldInvR asciiCC INT := by
+  simp only [INT, R.opt, R.plus, FoldInvR]; fold_inv_ascii
+theorem foldInvR_FLOAT_ascii : FoldInvR asciiCC FLOAT := by
+  simp only [FLOAT, R.opt, R.plus, FoldInvR]; fold_inv_ascii
+theorem foldInvR_STRICTFLOAT_ascii : FoldInvR asciiCC STRICTFLOAT := by
+  simp only [STRICTFLOAT, R.opt, R.plus, FoldInvR]; fold_inv_ascii
+theorem foldInvR_STRING_ascii : FoldInvR asciiCC STRING := by
+  simp only [STRING, FoldInvR]; fold_inv_ascii
+theorem foldInvR_ID_ascii : FoldInvR asciiCC ID := foldInvR_ID foldWordAll_ascii foldDigitAll_ascii
+/-- a cased plain literal (as in BOOL's `True|true|False|false`, compiled without IGNORECASE) is not -/
+theorem not_foldInvR_chr_T : ¬ FoldInvR asciiCC (.chr 'T') := by
+  intro h
+  have := h 't' (by decide +kernel)
+  exact absurd this (by decide)
+end
+
 end Re
